@@ -108,6 +108,10 @@ pub enum Event<'a> {
     /// 3 = invalid transaction, 4 = other EVM error
     AttemptEnd { txid: usize, incarnation: usize, kind: u32, new_write_locations: bool },
     ValidationEnd { txid: usize, incarnation: usize, ts: usize, conflict: bool },
+    /// the scheduler asks for validation to be rewound to `index` (emitted at the call site)
+    RewindRequest { index: usize, by_tx: usize },
+    /// a validation of `txid` has captured its logical timestamp and is about to scan the read set
+    ValidationStart { txid: usize, incarnation: usize, ts: usize },
     Rewind { index: usize, ts: usize, previous: usize },
     Finality { txid: usize, incarnation: usize, unconfirmed_ts: usize, lower_ts: usize },
     FinalityRejected { txid: usize, unconfirmed_ts: usize, lower_ts: usize },
